@@ -104,7 +104,8 @@ func TestVerifCandidate(t *testing.T) {
 	for _, b := range bounds {
 		lags := []int{0, b, b + 1, 2*b + 2, vUnknownLag}
 		if b > 1 {
-			lags = append(lags, b-1)
+			// b+1 vs 1 and 2b+1 vs b+1: the difference is EXACTLY the bound while the larger lag is above it
+			lags = append(lags, b-1, 1, 2*b+1)
 		}
 		var grid []candPos
 		for _, pr := range []int64{0, 1, 2} {
